@@ -16,7 +16,7 @@ CFG = {
             "compared exactly with the Lean model buildGraph (edges in insertion order with coordinates and both label slots, nodes in node-map order, "
             "the boundary-rule flag), the self-noded fresh graph must equal the clone handed out by a PreparedGeometry token for token (including "
             "intersection lists and is_isolated), and the nodes of both must equal the model's add_self_intersection_nodes run on the recorded "
-            "intersection coordinates; empty graphs are tagged triv. distinct by input text.",
+            "intersection coordinates; empty graphs are tagged triv. distinct by input text. One case in eight (C17.conc, round 10): the first operand reached through its concrete type (plain and prepared, both positions, against the enum), a third of them degenerate Rect / Triangle / Line values, half of the partners with a disjoint bounding box. Histories also contain self-noded touch points crossed properly by a line (round 8).",
     "trusted_base": [
         "translator/rs2lean.py + rsexpr.py + jobs2.py for TopologyPosition and IntersectionMatrix::{set, set_at_least, set_at_least_if_in_both} (explicit choices: "
         "a &mut match on self binds the named fields as mutable variables and rebuilds the value at the end of the arm; panic! arms = None / state unchanged, "
